@@ -86,6 +86,12 @@ def is_full_slice(ex, p, idx):
 
 
 @REG.specfunc()
+def is_np_s(ex, p, a):
+    """the index-expression helper np.s_ (np.s_[a:b] is slice(a, b))"""
+    return VBool(_k(ex, p, a) == lib_const("np.s_").t)
+
+
+@REG.specfunc()
 def opq(ex, p, x):
     """a dynamic value known to be a library array, as an opaque value"""
     x = ex.deref(p, x)
@@ -117,7 +123,7 @@ REG.contract("opaque.astype", assumed=True, params=dict(self=OpaqueT, dtype=Dyn)
                       "(dtype == boxed(DataType.Double)) implies np_is_double(result)"],
              note="ndarray.astype(dtype): a new array of that element type, same shape, converted elementwise")
 REG.contract("opaque.__getitem__", assumed=True, params=dict(self=OpaqueT, idx=Dyn), result=Dyn,
-             result_expr="ite_(is_full_slice(idx), boxed(self), uf('np.getitem', self, idx))",
+             result_expr="ite_(is_np_s(self), idx, ite_(is_full_slice(idx), boxed(self), uf('np.getitem', self, idx)))",
              note="a[:] denotes all elements of a (same shape, same type)")
 REG.contract("opaque.__setitem__", assumed=True, params=dict(self=OpaqueT, idx=Dyn, value=Dyn), result=OpaqueT,
              requires=["is_full_slice(idx)"],
